@@ -2,7 +2,8 @@
 """Sensitivity of the checks: apply a deliberate property-breaking edit to /repo's working
 tree, run the property's quick check, undo the edit (git checkout).  Usage:
     tools/sensitivity.py [name ...]     (no name: all)
-Each mutant must make its check exit 1 with a VIOLATION line; the script prints a table.
+Each mutant must make its check exit 1 with a VIOLATION line - except the "benign-" entries,
+behaviour changes that break no property, under which the check must exit 0; the script prints a table.
 Nothing is ever committed to /repo."""
 import subprocess, sys, os, time
 
@@ -58,6 +59,17 @@ mut("c20-stage-order-reversed", "C20", "src/cli/seq.rs",
 mut("c20-export-history-drops-parent-rules", "C20", "src/cli/seq.rs",
     "        let mut rules = get_all_rules(rule_seqs, seq)?;\n", "        let _ = get_all_rules(rule_seqs, seq)?;\n        let mut rules: Vec<RuleGroup> = vec![];\n")
 
+# ---------------- behaviour changes that do NOT break a property: the checks must stay quiet
+BENIGN = set()
+def benign(name, prop, file, old, new):
+    M[name] = (prop, file, old, new); BENIGN.add(name)
+benign("benign-run-exits-1-on-library-error", "C19", "src/cli/run.rs",
+    "            util::print_asca_errors(err, &words, &rules, &into, &from); \n            Ok(())",
+    "            util::print_asca_errors(err, &words, &rules, &into, &from); \n            Err(io::Error::other(\"the rules could not be applied\"))")
+benign("benign-seq-exits-1-when-a-tag-fails", "C20", "src/cli/seq.rs",
+    "        for seq in &config {\n            handle_sequence(&config, &mut seq_cache, &dir_path, &words_path, seq, &flags)?;\n        }\n        Ok(())",
+    "        let mut failed = false;\n        for seq in &config {\n            handle_sequence(&config, &mut seq_cache, &dir_path, &words_path, seq, &flags)?;\n            if !seq_cache.contains_key(&seq.tag) { failed = true; }\n        }\n        if failed { return Err(io::Error::other(\"one or more sequences failed\")) }\n        Ok(())")
+
 def run(cmd, **kw):
     return subprocess.run(cmd, shell=True, capture_output=True, text=True, **kw)
 
@@ -76,10 +88,13 @@ def main():
             t = time.time()
             b = run(f"cd {REPO} && CARGO_NET_OFFLINE=true cargo test --workspace --offline 2>&1 | grep -E '^test result|error' | head -3")
             tests_ok = "144 passed; 0 failed" in b.stdout
-            r = run(f"cd /verif && ./check {prop} quick")
+            r = run(f"cd /verif && VERIF_NO_EVIDENCE=1 ./check {prop} quick")
             viol = [l for l in r.stdout.splitlines() if l.startswith("VIOLATION")]
             clause = [l for l in r.stdout.splitlines() if l.startswith("clause ")]
-            status = "CAUGHT" if r.returncode == 1 and viol else ("MISSED" if r.returncode == 0 else f"EXIT{r.returncode}")
+            if n in BENIGN:
+                status = "QUIET" if r.returncode == 0 and not viol else "FALSE-ALARM"
+            else:
+                status = "CAUGHT" if r.returncode == 1 and viol else ("MISSED" if r.returncode == 0 else f"EXIT{r.returncode}")
             rows.append((n, prop, status + ("" if tests_ok else " (tests fail/compile error!)"), time.time() - t))
             print(f"{n:45s} {prop} {rows[-1][2]:10s} {rows[-1][3]:5.0f}s  {clause[0][:110] if clause else ''}", flush=True)
             if r.returncode not in (0, 1):
@@ -87,8 +102,8 @@ def main():
         finally:
             run(f"git -C {REPO} checkout -- .")
     run("cd /verif && rm -f replays/*")
-    bad = [r for r in rows if not r[2].startswith("CAUGHT")]
-    print(f"{len(rows)-len(bad)}/{len(rows)} caught")
+    bad = [r for r in rows if not (r[2].startswith("CAUGHT") or r[2].startswith("QUIET"))]
+    print(f"{len(rows)-len(bad)}/{len(rows)} as they must be ({len(BENIGN & set(names))} of them behaviour changes that break no property and must pass quietly)")
     return 1 if bad else 0
 
 sys.exit(main())
